@@ -9,6 +9,7 @@ Secrets are read (a) from public attributes right after construction and (b) fro
 independent reader (struct offsets of the documented formats + `cryptography` primitives called directly: RFC 3394
 unwrap, AES-ECB, AES-CBC) - never through spsdk.crypto.
 
+Also run by runpy inside a process forked from a harness process that has pre-imported third-party modules but nothing of spsdk.
 job    = {"repo": path, "dir": workdir, "keys": keydir, "hab": habdir, "user": {field: hex}, "fake_rng": ""|"const"|"cycle:N",
           "steps": [{"op":"Construct","art":n,"kind":K,"how":H,"ex":[fields]} | {"op":"Export","art":n}]}
 result = {"import_draws":[n,...], "steps":[{"op":..,"art":n,"fields":{name: hex}, "ctr":[keyhex,noncehex]|[], "draws":[[phase,n,hex]..]} | {"op":..,"error":..}]}
@@ -259,7 +260,7 @@ def mbi_ctor(n, ex):
 
 
 def mbi_attrs(obj, fields):
-    return {"ctr_iv": bytes(obj.ctr_init_vector)}, [USER["mbi_key"], bytes(obj.ctr_init_vector)]
+    return {"key": bytes(obj.hmac_key), "ctr_iv": bytes(obj.ctr_init_vector)}, [bytes(obj.hmac_key), bytes(obj.ctr_init_vector)]
 
 
 def mbi_export(obj):
@@ -279,7 +280,7 @@ def mbi_export(obj):
     (tlen,) = struct.unpack_from("<I", data, pos + 28)
     iv_at = pos + hlen + tlen + 128 + 56
     iv = data[iv_at : iv_at + 16]
-    return {"ctr_iv": iv}, [USER["mbi_key"], iv]
+    return {"key": USER["mbi_key"], "ctr_iv": iv}, [USER["mbi_key"], iv]  # the image key is the user's (it never appears in the file)
 
 
 # ---------------------------------------------------------------------------------------------- OTFAD
@@ -588,4 +589,7 @@ for i, st in enumerate(job["steps"]):
     out.append(rec)
 PHASE[0] = "run"
 
-json.dump({"import_draws": [list(d) for d in DRAWS if d[0] == "import"], "steps": out}, sys.stdout)
+result = {"import_draws": [list(d) for d in DRAWS if d[0] == "import"], "steps": out}
+if job.get("report_modules"):
+    result["modules"] = sorted(m for m in sys.modules if not m.startswith("spsdk") and m != "__main__")
+json.dump(result, sys.stdout)
